@@ -275,6 +275,18 @@ def _fname(fs):
 # ---------------------------------------------------------------------------------------------
 # C07
 # ---------------------------------------------------------------------------------------------
+def _stmt_transitions(d, ni, nn):
+    """statements left / entered on the step from node ni to node nn (cached per graph)"""
+    cache = d.setdefault('_trans', {})
+    r = cache.get((ni, nn))
+    if r is None:
+        ex = [(sid, s) for sid, s in d['stmts'].items() if s['live_out'] is not None and ni in s['_inside'] and nn not in s['_inside']]
+        en = [(sid, s) for sid, s in d['stmts'].items()
+              if s['live_in'] is not None and s['entry'] == nn and ni not in s['_inside'] and s['kind'] not in ('With',)]
+        r = cache[(ni, nn)] = (ex, en)
+    return r
+
+
 def c07_observations(pd, tracer, stats):
     fns = pd.instr.fns
     for act in tracer.acts:
@@ -309,14 +321,14 @@ def c07_observations(pd, tracer, stats):
                 if v not in lin.get(nn, ()):
                     bad.append('live_in[node %d]' % nn)
                 # statement level
-                for sid, s in d['stmts'].items():
-                    if s['live_out'] is not None and ni in s['_inside'] and nn not in s['_inside']:
-                        stats['stmt_exit_obligations'] += 1
-                        if v not in s['live_out']:
-                            bad.append('LIVE_VARS_OUT(%s %d)' % (s['kind'], sid))
-                    if s['live_in'] is not None and s['entry'] == nn and ni not in s['_inside'] and s['kind'] not in ('With',):
-                        if v not in s['live_in']:
-                            bad.append('LIVE_VARS_IN(%s %d)' % (s['kind'], sid))
+                ex, en = _stmt_transitions(d, ni, nn)
+                for sid, s in ex:
+                    stats['stmt_exit_obligations'] += 1
+                    if v not in s['live_out']:
+                        bad.append('LIVE_VARS_OUT(%s %d)' % (s['kind'], sid))
+                for sid, s in en:
+                    if v not in s['live_in']:
+                        bad.append('LIVE_VARS_IN(%s %d)' % (s['kind'], sid))
                 sm = d['simple'].get(nn)
                 if sm is not None and sm['live_in'] is not None and v not in sm['live_in']:
                     bad.append('LIVE_VARS_IN(stmt %d)' % nn)
